@@ -283,6 +283,109 @@ func c12Reuse(r *explore.Run, progs []wgen.Micro, triples bool, tot *c12Totals) 
 	})
 }
 
+// ---------------------------------------------------------------- part 2b: option-set pairs through the function-level APIs
+
+// c12OptionPairs: for every ordered pair (o1, o2) of the option sets within one deviation of each backend's
+// default, call the package-level API with o1 and then with o2 in this process: the second output must equal the
+// output of o2 on a freshly lowered module computed before any other call with that backend (hidden caches keyed
+// by a subset of the options, or options inherited from an earlier call, show up as a difference).
+func c12OptionPairs(r *explore.Run, progs []wgen.Micro, tot *c12Totals) {
+	type api struct {
+		name   string
+		labels []string
+		run    func(m *ir.Module, i int) ([]byte, string)
+	}
+	var apis []api
+	{
+		cs := nagax.SPIRVConfigs(1)
+		var ls []string
+		for _, c := range cs {
+			ls = append(ls, c.Label)
+		}
+		apis = append(apis, api{"spirv", ls, func(m *ir.Module, i int) ([]byte, string) {
+			b, err, pn := nagax.SPIRV(m, cs[i].Opts)
+			return b, errStr(err, pn)
+		}})
+	}
+	{
+		cs := nagax.HLSLConfigs(1)
+		var ls []string
+		for _, c := range cs {
+			ls = append(ls, c.Label)
+		}
+		apis = append(apis, api{"hlsl", ls, func(m *ir.Module, i int) ([]byte, string) {
+			s, _, err, pn := nagax.HLSL(m, cs[i].Opts)
+			return []byte(s), errStr(err, pn)
+		}})
+	}
+	{
+		cs := nagax.MSLConfigs(1)
+		var ls []string
+		for _, c := range cs {
+			ls = append(ls, c.Label)
+		}
+		apis = append(apis, api{"msl", ls, func(m *ir.Module, i int) ([]byte, string) {
+			o := cs[i].Opts
+			o.FakeMissingBindings = true
+			s, _, err, pn := nagax.MSL(m, o)
+			return []byte(s), errStr(err, pn)
+		}})
+	}
+	{
+		cs := nagax.GLSLConfigs(1)
+		var ls []string
+		for _, c := range cs {
+			ls = append(ls, c.Label)
+		}
+		apis = append(apis, api{"glsl", ls, func(m *ir.Module, i int) ([]byte, string) {
+			var all bytes.Buffer
+			var es []string
+			for k := range m.EntryPoints {
+				o := cs[i].Opts
+				o.EntryPoint = m.EntryPoints[k].Name
+				s, _, err, pn := nagax.GLSL(m, o)
+				all.WriteString(s)
+				es = append(es, errStr(err, pn))
+			}
+			return all.Bytes(), strings.Join(es, ";")
+		}})
+	}
+	pairs := 0
+	for _, p := range progs {
+		m0, _, err, pn := nagax.Front(p.Src)
+		if err != nil || pn != nil {
+			continue
+		}
+		for _, a := range apis {
+			n := len(a.labels)
+			// reference outputs: each option set once, on its own fresh module (computed first, in label order)
+			ref := make([][]byte, n)
+			refErr := make([]string, n)
+			for i := 0; i < n; i++ {
+				ref[i], refErr[i] = a.run(irx.Clone(m0), i)
+			}
+			for i := 0; i < n; i++ {
+				for j := 0; j < n; j++ {
+					m := irx.Clone(m0)
+					a.run(m, i)
+					out, es := a.run(m, j)
+					pairs++
+					if es != refErr[j] || !bytes.Equal(out, ref[j]) {
+						r.Violate(explore.Violation{Key: "C12|option-pair|" + a.name + "|" + a.labels[j] + " after " + a.labels[i],
+							Detail: fmt.Sprintf("%s output of %s under option set %q differs when the previous call in this process used option set %q (err %q vs %q, %d vs %d bytes)", a.name, p.Name, a.labels[j], a.labels[i], es, refErr[j], len(out), len(ref[j])),
+							Replay: map[string]any{"program": p.Name, "src": trunc(p.Src, 20000), "api": a.name, "first": a.labels[i], "second": a.labels[j]}})
+					}
+				}
+			}
+		}
+	}
+	tot.mu.Lock()
+	tot.transitions += int64(2 * pairs)
+	tot.traces += int64(pairs)
+	tot.mu.Unlock()
+	r.Extra("option_pair_sequences", pairs)
+}
+
 // ---------------------------------------------------------------- parts 3/4: c12x (map order, interleavings, race detector)
 
 type c12xOut struct {
@@ -410,6 +513,17 @@ func runC12() int {
 		}
 	}
 	c12Reuse(r, cover, r.Thorough(), tot)
+	// part 2b: option-set pairs (sequential on purpose: the calls share whatever process-level state exists)
+	pairProgs := []wgen.Micro{progs[0], progs[1]}
+	for _, p := range progs {
+		if strings.HasSuffix(p.Name, "corpus/boids") || strings.HasSuffix(p.Name, "corpus/quad") || strings.HasSuffix(p.Name, "corpus/shadow") {
+			pairProgs = append(pairProgs, p)
+		}
+	}
+	if r.Thorough() {
+		pairProgs = append(pairProgs, wgen.Micros[2:]...)
+	}
+	c12OptionPairs(r, pairProgs, tot)
 	// parts 3 and 4
 	if os.Getenv("VERIF_C12_SKIPX") == "" {
 		for _, sub := range []string{"maporder", "interleave", "race"} {
@@ -426,7 +540,7 @@ func runC12() int {
 	r.Sample(map[string]any{"history": []string{"dxil", "spirv"}, "program": "corpus/push-constants", "invariants": "module hash unchanged; output equals solo output"})
 	r.Sample(map[string]any{"reuse": "Backend.Compile(A); Backend.Compile(B) == fresh Compile(B)", "A": cover[0].Name, "B": cover[1].Name})
 	printKeys(r)
-	return r.Finish("(1) explicit-state BFS over all sequences (depth 2 quick / 3 thorough) of 9 operations {3 SPIR-V option sets, HLSL, MSL, GLSL, DXIL, override resolution, Validate} on one shared module per program (corpus + micro-programs + family representatives), state = canonical deep hash of the caller's module, successors on deep clones; invariants: hash unchanged, output equals the output on a freshly lowered module, returned bytes not aliased. (2) all ordered pairs of a module cover set on one reused spirv.Backend under two option sets. (3) every compile under an instrumented build with every range-over-map iterating ascending/descending/rotated. (4) all interleavings of 2-3 concurrent compilations up to the preemption bound at instrumented function-entry yield points with a shared-state fingerprint invariant at every point, plus a free-running -race pass. states/transitions are summed over modules and scenarios",
+	return r.Finish("(1) explicit-state BFS over all sequences (depth 2 quick / 3 thorough) of 9 operations {3 SPIR-V option sets, HLSL, MSL, GLSL, DXIL, override resolution, Validate} on one shared module per program (corpus + micro-programs + family representatives), state = canonical deep hash of the caller's module, successors on deep clones; invariants: hash unchanged, output equals the output on a freshly lowered module, returned bytes not aliased. (2) all ordered pairs of a module cover set on one reused spirv.Backend under two option sets; (2b) for each backend's function-level API every ordered pair of the option sets within one deviation of its default, called one after the other in one process: the second output must equal the reference output of its option set. (3) every compile under an instrumented build with every range-over-map iterating ascending/descending/rotated. (4) all interleavings of 2-3 concurrent compilations up to the preemption bound at instrumented function-entry yield points with a shared-state fingerprint invariant at every point, plus a free-running -race pass. states/transitions are summed over modules and scenarios",
 		[]string{"a spirv.Backend instance is single-owner by its documentation and is never shared between threads",
 			"interleavings are explored at function-entry granularity under sequential consistency; finer-grained races are the job of the -race pass"})
 }
